@@ -1,5 +1,5 @@
 From Coq Require Import Extraction ExtrOcamlBasic ZArith NArith.
-From Elk Require Import Model.C31_Hygiene.
+From Elk Require Import Model.C31_Hygiene Model.C31_Cond.
 Extraction Language OCaml.
 Extraction Blacklist List String Int.  (* keep OCaml Stdlib.List visible to ocaml/common/zio.ml *)
-Separate Extraction run accepts expand_all expand_by_hand stmt_below env_below Z.to_N N.add Z.of_nat Z.to_nat.
+Separate Extraction ifc run accepts expand_all expand_by_hand stmt_below env_below Z.to_N N.add Z.of_nat Z.to_nat.
